@@ -615,6 +615,8 @@ MUTANTS = [
     Mutant("transport-skips-drain", T, "        Telnet.connectionLost(self, reason)\n        if self.protocol is not None:", "        if self.protocol is not None:"),
     Mutant("will-sender-picked-by-wrong-name", T, "            s.us.onResult = d = defer.Deferred()\n            self._will(option)\n", "            s.us.onResult = d = defer.Deferred()\n            getattr(self, \"_do\")(option)\n",
            expect_rule="request/sends-own-command"),
+    Mutant("table-key-method-swaps-the-pair", T, '        self.willMap[s.him.state, s.him.negotiating](self, s, option)', '        self.willMap[s.him.key()](self, s, option)', expect_rule="dispatch/",
+           more=[(T, '            onResult = None\n\n            def __str__(self) -> str:', '            onResult = None\n\n            def key(self):\n                return self.negotiating, self.state\n\n            def __str__(self) -> str:')]),
 ]
 SILENT = [
     Silent("requester-named-perspective-and-split-assignment", T, "    def dont(self, option):\n        s = self.getOptionState(option)\n        if s.us.negotiating or s.him.negotiating:\n            return defer.fail(AlreadyNegotiating(option))\n        elif s.him.state == \"no\":\n            return defer.fail(AlreadyDisabled(option))\n        else:\n            s.him.negotiating = True\n            s.him.onResult = d = defer.Deferred()\n            self._dont(option)\n            return d\n",
@@ -637,4 +639,6 @@ SILENT = [
     Silent("reply-row-inverted-branches", T, "        if self.enableRemote(option):\n            state.him.state = \"yes\"\n            self._do(option)\n        else:\n            self._dont(option)\n",
            "        if not self.enableRemote(option):\n            self._dont(option)\n            return\n        state.him.state = \"yes\"\n        self._do(option)\n"),
     Silent("will-sender-picked-by-name", T, "            s.us.onResult = d = defer.Deferred()\n            self._will(option)\n", "            s.us.onResult = d = defer.Deferred()\n            getattr(self, \"_will\")(option)\n"),
+    Silent("table-key-from-a-method-of-the-perspective", T, '        self.willMap[s.him.state, s.him.negotiating](self, s, option)', '        self.willMap[s.him.key()](self, s, option)',
+           more=[(T, '            onResult = None\n\n            def __str__(self) -> str:', '            onResult = None\n\n            def key(self):\n                return self.state, self.negotiating\n\n            def __str__(self) -> str:')]),
 ]
